@@ -276,6 +276,9 @@ class _SplitFieldsTranslator(nodes.NodeVisitor):
             lineno: int
             ) -> None:
         field_doc = self.document.copy()
+        # Nodes that carry no line of their own (e.g. the classifier of a
+        # definition list item) are located at the start of the field.
+        field_doc.line = lineno
         for child in fbody: 
             field_doc.append(child)
         field_parsed_doc = ParsedRstDocstring(field_doc, ())
